@@ -39,9 +39,64 @@ def direct(c):
     return out
 
 
+def own_key_checks(ld, r, count):
+    """datasets derived by filtering, reshuffling, local shuffling or prefetching (no keys()) must still pair
+    every yielded example with its OWN key in items(), or refuse items() loudly"""
+    import numpy as np
+    from .. import fnlib as F
+    fails = []
+    for _ in range(count):
+        n = r.randint(0, 7)
+        keys = r.sample(gen_a_keys(), n)
+        vals = [r.randint(0, 9) for _ in range(n)]
+        add = r.randint(1, 3)
+        base = ld.new(dict(zip(keys, vals))).map(F.PyF(('FAdd', add)))
+        own = {k: v + add for k, v in zip(keys, vals)}
+        seed = r.randint(0, 10 ** 6)
+        variants = {
+            'filter': lambda d: d.filter(F.PyQ(('QP', ('PModEq', 2, 0)))),
+            'reshuffle': lambda d: d.shuffle(True, rng=np.random.RandomState(seed)),
+            'local_shuffle': lambda d: d.shuffle(True, rng=np.random.RandomState(seed), buffer_size=r.randint(1, 4)),
+            'prefetch1': lambda d: d.prefetch(1, 2),
+            'reshuffle_prefetch': lambda d: d.shuffle(True, rng=np.random.RandomState(seed)).prefetch(1, 2),
+            'filter_reshuffle?': lambda d: d.shuffle(True, rng=np.random.RandomState(seed)).filter(F.PyQ(('QP', ('PLt', 8)))),
+            'catch': lambda d: d.catch(),
+            'slice_reshuffle': lambda d: d[::-1].shuffle(True, rng=np.random.RandomState(seed)),
+            'one_time_shuffle': lambda d: d.shuffle(False, rng=np.random.RandomState(seed)),
+            'sort': lambda d: d.sort(lambda x: -x),
+        }
+        for name, mk in variants.items():
+            try:
+                ds = mk(base)
+                items = list(ds.items())
+                plain = list(ds) if 'shuffle' not in name or name == 'one_time_shuffle' else None
+            except Exception:
+                continue            # loud refusal is allowed
+            bad = [(k, v) for (k, v) in items if own.get(k, object()) != v]
+            if bad or any(not isinstance(p, tuple) or len(p) != 2 for p in items):
+                fails.append(f'{name} over {own}: items() yields {items}: not every example is paired with its own key')
+            elif len(set(k for k, v in items)) != len(items):
+                fails.append(f'{name} over {own}: items() yields a key twice: {items}')
+            elif plain is not None and [v for k, v in items] != plain:
+                fails.append(f'{name} over {own}: items() values {items} differ from plain iteration {plain}')
+    return fails
+
+
+def gen_a_keys():
+    from .. import gen_a
+    return gen_a.KEYS
+
+
 def run(tier):
-    return model_a.run_a('C03', tier, WANT, n_quick=1500, n_thorough=40000, direct=direct,
-                         gen_kwargs=dict(structured=0.1))
+    from .. import common
+    res = model_a.run_a('C03', tier, WANT, n_quick=1500, n_thorough=40000, direct=direct,
+                        gen_kwargs=dict(structured=0.1))
+    res.pop('cases', None)
+    cnt = 200 if tier == 'quick' else 3000
+    for msg in own_key_checks(common.import_impl(), common.rng_for('C03own'), cnt)[:5]:
+        res['failures'].append(dict(kind='program', summary=msg[:700]))
+    res['coverage']['own_key_pipelines'] = cnt * 10
+    return res
 
 
 def replay(payload):
